@@ -748,6 +748,244 @@ def f32(x):
     return struct.unpack("<f", struct.pack("<f", x))[0]
 
 
+# ================================================================================================ constructs
+# Valid constructs of the formats that a conforming independent writer may emit and that have a POSITION in the file
+# (first / middle / last record, end of file).  construct_files(fmt, model) -> [(construct, position, text)], every
+# text is a complete file that means `model` to the reference parser of the format (checked by selftest()).
+def _positions(n):
+    """(name, index) of the first / middle / last of n records; coinciding positions are listed once"""
+    out = []
+    for name, i in (("first", 0), ("last", n - 1), ("middle", n // 2)):
+        if n > 0 and all(i != j for _, j in out):
+            out.append((name, i))
+    return sorted(out, key=lambda x: x[1])
+
+
+def _join(lines):
+    return "\n".join(lines) + "\n"
+
+
+def _blank_line_files(lines, records):
+    """one blank line before the first / middle / last record (records = indices into lines) and one after the last line"""
+    out = []
+    for pos, k in _positions(len(records)):
+        i = records[k]
+        out.append((pos, _join(lines[:i] + [""] + lines[i:])))
+    if records:
+        out.append(("end", _join(lines + [""])))
+    return out
+
+
+def _comment_line_files(lines, records, trailing, mark="# "):
+    """a comment line before the first / middle / last record (plus, where the format ends a record at the end of its
+    line, a comment after that record on the same line) and a comment line after the last line of the file"""
+    out = []
+    for pos, k in _positions(len(records)):
+        i = records[k]
+        rec = lines[i] + (" " + mark + "record " + str(k) if trailing else "")
+        out.append((pos, _join(lines[:i] + [mark + "a comment before record " + str(k), rec] + lines[i + 1:])))
+    if records:
+        out.append(("end", _join(lines + [mark + "end of the data"])))
+    return out
+
+
+def _obj_v(p):
+    return "v " + " ".join(_spell(c) for c in p)
+
+
+def obj_relative_files(m):
+    """OBJ: 'A negative index refers to the vertex that many positions before the record': the vertices are written just
+    before the first record that needs them (the usual layout of exporters that write relative indices), and the first /
+    middle / last / every l and f record uses relative indices."""
+    recs = [("l", e) for e in m["E"]] + [("f", f) for f in m["F"]]
+    out = []
+    for pos, sel in _positions(len(recs)) + ([("all", None)] if len(recs) > 1 else []):
+        lines, seen = [], 0
+        for k, (key, ids) in enumerate(recs):
+            while seen <= max(ids):
+                lines.append(_obj_v(m["V"][seen])); seen += 1
+            rel = sel is None or k == sel
+            lines.append(key + " " + " ".join(str(v - seen) if rel else str(v + 1) for v in ids))
+        lines += [_obj_v(p) for p in m["V"][seen:]]
+        out.append((pos, _join(lines)))
+    return out
+
+
+def _trails(E):
+    """deterministic decomposition of an edge list into trails (each edge used once): start at the smallest vertex of
+    odd degree (else the smallest vertex that still has an edge), always leave by the smallest neighbour"""
+    left = [(min(a, b), max(a, b)) for a, b in E]
+    out = []
+    while left:
+        deg = {}
+        for a, b in left:
+            deg[a] = deg.get(a, 0) + 1; deg[b] = deg.get(b, 0) + 1
+        odd = sorted(v for v in deg if deg[v] % 2)
+        cur = odd[0] if odd else min(deg)
+        trail = [cur]
+        while True:
+            cand = sorted((b if a == cur else a, k) for k, (a, b) in enumerate(left) if cur in (a, b))
+            if not cand:
+                break
+            cur, k = cand[0]
+            left.pop(k)
+            trail.append(cur)
+        out.append(trail)
+    return out
+
+
+def obj_polyline_files(m):
+    """OBJ: 'l v1 v2 v3 ...' is a polyline through all its vertices: the edges are written as trails, and the first /
+    middle / last / every trail with more than two vertices is ONE record (the others one record per segment)."""
+    trails = _trails(m["E"])
+    long = [k for k, t in enumerate(trails) if len(t) > 2]
+    out = []
+    for pos, sel in _positions(len(long)) + ([("all", None)] if len(long) > 1 else []):
+        lines = [_obj_v(p) for p in m["V"]]
+        for k, t in enumerate(trails):
+            if sel is None or k == long[sel]:
+                lines.append("l " + " ".join(str(v + 1) for v in t))
+            else:
+                lines += [f"l {a + 1} {b + 1}" for a, b in zip(t, t[1:])]
+        lines += ["f " + " ".join(str(v + 1) for v in f) for f in m["F"]]
+        out.append((pos, _join(lines)))
+    return out
+
+
+def _medit_blocks(m):
+    one = lambda rows: [[v + 1 for v in r] for r in rows]
+    blocks = [("Vertices", [[_spell(c) for c in p] for p in m["V"]])]
+    for name, rows in (("Edges", m["E"]), ("Triangles", [f for f in m["F"] if len(f) == 3]),
+                       ("Quadrilaterals", [f for f in m["F"] if len(f) == 4]),
+                       ("Tetrahedra", [c for c in m["C"] if len(c) == 4]), ("Hexahedra", [c for c in m["C"] if len(c) == 8])):
+        if rows:
+            blocks.append((name, one(rows)))
+    return blocks
+
+
+def _medit_lines(blocks, oneline=(), dim=3):
+    """-> (lines, indices of the record lines); the keyword and the count of the blocks in `oneline` share a line"""
+    lines, records = ["MeshVersionFormatted 2", f"Dimension {dim}"], []
+    for b, (name, rows) in enumerate(blocks):
+        lines += [f"{name} {len(rows)}"] if b in oneline else [name, str(len(rows))]
+        for k, r in enumerate(rows):
+            records.append(len(lines))
+            lines.append(" ".join(str(x) for x in r) + f" {1 + (k + b) % 3}")
+    lines.append("End")
+    return lines, records
+
+
+def medit_oneline_files(m):
+    """medit: keywords and numbers are a free token stream, so 'Vertices 4' on one line is the same as on two: the
+    first / middle / last / every block has its keyword and count on one line"""
+    blocks = _medit_blocks(m)
+    out = []
+    for pos, sel in _positions(len(blocks)) + ([("all", None)] if len(blocks) > 1 else []):
+        lines, _ = _medit_lines(blocks, range(len(blocks)) if sel is None else (sel,))
+        out.append((pos, _join(lines)))
+    return out
+
+
+def medit_blank_files(m):
+    lines, records = _medit_lines(_medit_blocks(m))
+    return [(pos, t) for pos, t in _blank_line_files(lines, records) if pos != "end"]
+
+
+def medit_dim2_files(m):
+    """medit 'Dimension 2': every vertex record is 'x y ref' (what 2D mesh generators write); only for planar models"""
+    if not m["V"] or any(not (p[2] == 0.0 and str(p[2]) == "0.0") for p in m["V"]):
+        return []
+    blocks = _medit_blocks(m)
+    blocks[0] = ("Vertices", [r[:2] for r in blocks[0][1]])
+    return [("whole", _join(_medit_lines(blocks, dim=2)[0]))]
+
+
+def off_files(m, which):
+    lines = _lines(write_off(m, 0))
+    if which == "counts_on_header_line":
+        return [("whole", _join(["OFF " + lines[1]] + lines[2:]))]
+    return _comment_line_files(lines, list(range(1, len(lines))), True)
+
+
+def _lines(text):
+    return text.split("\n")[:-1] if text else []
+
+
+def _geogram_lines(m):
+    lines = _lines(write_geogram(m, 0))
+    return lines, list(range(3, len(lines)))
+
+
+CONSTRUCTS = {
+    "obj": [("relative_indices", obj_relative_files), ("polyline_records", obj_polyline_files)],
+    "mesh": [("keyword_count_one_line", medit_oneline_files), ("blank_lines_in_block", medit_blank_files),
+             ("dimension_2", medit_dim2_files)],
+    "off": [("comment_lines", lambda m: off_files(m, "comment_lines")),
+            ("counts_on_header_line", lambda m: off_files(m, "counts_on_header_line"))],
+    "tet": [("blank_lines", lambda m: _blank_line_files(_lines(write_tet(m, 0)), list(range(2, 2 + len(m["V"]) + len(m["C"])))))],
+    "xyz": [("blank_lines", lambda m: _blank_line_files(_lines(write_xyz(m, 0)), list(range(len(m["V"])))))],
+    "geogram_ascii": [("blank_lines", lambda m: _blank_line_files(*_geogram_lines(m))),
+                      ("comment_lines", lambda m: _comment_line_files(*_geogram_lines(m), False))],
+}
+CONSTRUCT_POSITIONS = {
+    ("obj", "relative_indices"): ["first", "middle", "last", "all"], ("obj", "polyline_records"): ["first", "middle", "last", "all"],
+    ("mesh", "keyword_count_one_line"): ["first", "middle", "last", "all"], ("mesh", "blank_lines_in_block"): ["first", "middle", "last"],
+    ("mesh", "dimension_2"): ["whole"], ("off", "comment_lines"): ["first", "middle", "last", "end"],
+    ("off", "counts_on_header_line"): ["whole"], ("tet", "blank_lines"): ["first", "middle", "last", "end"],
+    ("xyz", "blank_lines"): ["first", "middle", "last", "end"], ("geogram_ascii", "blank_lines"): ["first", "middle", "last", "end"],
+    ("geogram_ascii", "comment_lines"): ["first", "middle", "last", "end"],
+    ("stl-ascii", "blank_lines"): ["first", "middle", "last", "end"],
+}
+
+
+def construct_files(fmt, model):
+    """-> [(construct, position, text)] for a text format; files with identical text are listed once per construct"""
+    out = []
+    for tag, fn in CONSTRUCTS.get(fmt, ()):
+        seen = set()
+        for pos, text in fn(model):
+            if text not in seen:
+                seen.add(text)
+                out.append((tag, pos, text))
+    return out
+
+
+def stl_construct_files(tris):
+    """ASCII STL is a token stream ('white space may be used anywhere except within numbers or words'): a blank line after
+    the 'solid' line, before a middle line, before 'endsolid' and at the end of the file -> [(construct, position, bytes)]"""
+    if not tris:
+        return []
+    lines = _lines(write_stl_ascii(tris))
+    return [("blank_lines", pos, t.encode()) for pos, t in _blank_line_files(lines, list(range(1, len(lines))))]
+
+
+def parse_stl_ascii(text):
+    """token-stream reader of ASCII STL (used by the self-test of the construct files only) -> triangles"""
+    ts = _Tokens(text.split())
+    if ts.next("solid") != "solid":
+        raise RefParseError("ASCII STL must start with 'solid'")
+    if ts.more() and ts.t[ts.k] not in ("facet", "endsolid"):
+        ts.next()
+    tris = []
+    while True:
+        t = ts.next("facet or endsolid")
+        if t == "endsolid":
+            return tris
+        for want in ("facet", "normal", None, None, None, "outer", "loop"):
+            if want is None:
+                _f(ts.next("normal component"))
+            elif (t if want == "facet" else ts.next(want)) != want:
+                raise RefParseError(f"expected {want!r}")
+        tri = []
+        for _ in range(3):
+            if ts.next("vertex") != "vertex":
+                raise RefParseError("expected 'vertex'")
+            tri.append([_f(ts.next("coordinate")) for _ in range(3)])
+        if ts.next("endloop") != "endloop" or ts.next("endfacet") != "endfacet":
+            raise RefParseError("expected 'endloop' 'endfacet'")
+        tris.append(tri)
+
+
 # ================================================================================================ registry
 PARSERS = {"obj": parse_obj, "mesh": parse_medit, "off": parse_off, "tet": parse_tet, "xyz": parse_xyz,
            "geogram_ascii": parse_geogram}
@@ -803,4 +1041,29 @@ def selftest():
     assert all(float(_spell(x, k)) == x for k in (0, 1, 2) for x in (0.1, 1 / 3, 1e-30, -1e30, 5e-324, 1.7976931348623157e308))
     assert tet_adjacency([[0, 1, 2, 3], [1, 2, 3, 4]]) == [1] + [_NO_ID] * 6 + [0]
     assert all(len(VARIANT_TAG[f]) == N_VARIANTS[f] for f in N_VARIANTS)
+    # every construct file means the model it was written from to the reference reader, every position is produced
+    flat = [[p[0], p[1], 0.0] for p in V]
+    path = {"V": V, "E": [[0, 1], [2, 0], [0, 3], [0, 4], [5, 0], [0, 6], [6, 7]], "F": base["F"], "C": base["C"], "attrs": {}}
+    produced = set()
+    for fmt, par in PARSERS.items():
+        for src in (base, path, dict(base, V=flat)):
+            m = {k: (src[k] if k in vocab[fmt] else []) for k in "VEFC"}
+            m["attrs"] = {}
+            if fmt == "mesh":
+                m["F"] = [f for f in m["F"] if len(f) in (3, 4)]
+            for tag, pos, text in construct_files(fmt, m):
+                back = par(text)
+                produced.add((fmt, tag, pos))
+                assert hexa(back["V"]) == hexa(m["V"]), (fmt, tag, pos, "V")
+                assert sorted(sorted(e) for e in back["E"]) == sorted(sorted(e) for e in m["E"]), (fmt, tag, pos, back["E"])
+                assert back["F"] == m["F"] and back["C"] == m["C"] and back["attrs"] == m["attrs"], (fmt, tag, pos, back)
+                assert text != WRITERS[fmt](m, 0), (fmt, tag, pos)
+    two = tris + [[[1.0, 0.0, 0.0], [0.0, 1.0, 0.0], [0.0, 0.0, 1.0]]]
+    for tag, pos, blob in stl_construct_files(two):
+        assert parse_stl_ascii(blob.decode()) == two, (tag, pos)
+        produced.add(("stl-ascii", tag, pos))
+    assert parse_stl_ascii(write_stl_ascii(two)) == two and parse_stl_ascii(write_stl_ascii(two, 1)) == two
+    want = {(f, t, p) for (f, t), ps in CONSTRUCT_POSITIONS.items() for p in ps}
+    assert produced == want, (produced ^ want)
+    assert _trails([[0, 1], [2, 1], [2, 0], [2, 3]]) == [[2, 0, 1, 2, 3]]
     return True
